@@ -134,6 +134,74 @@ def docBlock (inner : Bool) (r : List Char) : Slash :=
     if hasBareCR text then .bad else .doc inner text rest
   | Option.none => .bad
 
+/-! `docBlock` is executed as `docBlockFast`: `blockEndN` counts the characters it passes, so
+    that no length has to be computed. -/
+
+def blockEndN : Nat → List Char → Nat → Option (List Char × Nat)
+  | _, [], _ => none
+  | d, '/' :: '*' :: r, k => blockEndN (d + 1) r (k + 2)
+  | 0, '*' :: '/' :: r, k => some (r, k + 2)
+  | d + 1, '*' :: '/' :: r, k => blockEndN d r (k + 2)
+  | d, _ :: r, k => blockEndN d r (k + 1)
+
+theorem blockEnd_length_le (d : Nat) (xs ys : List Char) (h : blockEnd d xs = some ys) :
+    ys.length ≤ xs.length := by
+  fun_induction blockEnd d xs with
+  | case1 d => cases h
+  | case2 d r ih => have := ih h; simp only [List.length_cons]; omega
+  | case3 r => cases h; simp only [List.length_cons]; omega
+  | case4 d r ih => have := ih h; simp only [List.length_cons]; omega
+  | case5 d c r h1 h2 h3 ih => have := ih h; simp only [List.length_cons]; omega
+
+theorem blockEndN_eq (d : Nat) (xs : List Char) (k : Nat) :
+    blockEndN d xs k = (blockEnd d xs).map fun r => (r, k + (xs.length - r.length)) := by
+  fun_induction blockEnd d xs generalizing k with
+  | case1 d => rfl
+  | case2 d r ih =>
+    rw [blockEndN, ih]
+    cases h : blockEnd (d + 1) r with
+    | none => rfl
+    | some ys =>
+      have := blockEnd_length_le _ _ _ h
+      simp only [Option.map_some, List.length_cons, Option.some.injEq, Prod.mk.injEq, true_and]
+      omega
+  | case3 r => simp only [blockEndN, Option.map_some, List.length_cons, Option.some.injEq,
+      Prod.mk.injEq, true_and]; omega
+  | case4 d r ih =>
+    rw [blockEndN, ih]
+    cases h : blockEnd d r with
+    | none => rfl
+    | some ys =>
+      have := blockEnd_length_le _ _ _ h
+      simp only [Option.map_some, List.length_cons, Option.some.injEq, Prod.mk.injEq, true_and]
+      omega
+  | case5 d c r h1 h2 h3 ih =>
+    have e : blockEndN d (c :: r) k = blockEndN d r (k + 1) := by
+      rw [blockEndN]
+      · exact h1
+      · exact h2
+      · exact h3
+    rw [e, ih]
+    cases h : blockEnd d r with
+    | none => rfl
+    | some ys =>
+      have := blockEnd_length_le _ _ _ h
+      simp only [Option.map_some, List.length_cons, Option.some.injEq, Prod.mk.injEq, true_and]
+      omega
+
+def docBlockFast (inner : Bool) (r : List Char) : Slash :=
+  match blockEndN 0 r 0 with
+  | some (rest, k) =>
+    let body := r.take k
+    let text := (body.drop 1).take (body.length - 3)
+    if hasBareCR text then .bad else .doc inner text rest
+  | Option.none => .bad
+
+@[csimp] theorem docBlock_eq_fast : @docBlock = @docBlockFast := by
+  funext inner r
+  simp only [docBlock, docBlockFast, blockEndN_eq, Nat.zero_add]
+  cases blockEnd 0 r <;> rfl
+
 def plainBlock (r : List Char) : Slash :=
   match blockEnd 0 r with
   | some rest => .skip rest
@@ -208,7 +276,8 @@ def trailingBs : Nat → Char → List Char → Option (List Char)
     decoding): `some (some ch, rest)` = the character `ch`; `some (none, rest)` = a line
     continuation (backslash, newline and the following white space are dropped);
     `none` = reject -/
-def escape (m : StrMode) (f : Nat) : List Char → Option (Option Char × List Char)
+def escapeWith (tb : Char → List Char → Option (List Char)) (m : StrMode) :
+    List Char → Option (Option Char × List Char)
   | 'x' :: a :: b :: r' =>
     match hexVal a, hexVal b with
     | some x, some y =>
@@ -228,9 +297,13 @@ def escape (m : StrMode) (f : Nat) : List Char → Option (Option Char × List C
     match uEsc r' with
     | some (ch, r'') => if m == .cstr && ch == '\x00' then none else some (some ch, r'')
     | none => none
-  | '\n' :: r' => (trailingBs f '\n' r').map fun r'' => (none, r'')
-  | '\r' :: r' => (trailingBs f '\r' r').map fun r'' => (none, r'')
+  | '\n' :: r' => (tb '\n' r').map fun r'' => (none, r'')
+  | '\r' :: r' => (tb '\r' r').map fun r'' => (none, r'')
   | _ => none
+
+/-- `escapeWith` with `trailing_backslash` bounded by the fuel `f` -/
+def escape (m : StrMode) (f : Nat) : List Char → Option (Option Char × List Char) :=
+  escapeWith (trailingBs f) m
 
 /-- `cooked_string` / `cooked_byte_string` / `cooked_c_string` (validation, lexer) fused with
     `parse_lit_str_cooked` (decoding, syn).  Input: the text after the opening quote; `acc` =
@@ -250,6 +323,67 @@ def cooked (m : StrMode) : Nat → List Char → List Char → Option (List Char
       | none => none
     else if (m == .bytes && 128 ≤ c.toNat) || (m == .cstr && c == '\x00') then none
     else cooked m f r (c :: acc)
+
+/-- a whole cooked literal: the text after the opening quote, with enough fuel -/
+def cookedAll (m : StrMode) (r : List Char) : Option (List Char × List Char) :=
+  cooked m (r.length + 1) r []
+
+/-! The same functions with a *list* as fuel (one element per unit): `cookedAll` is executed
+    as `cookedAllFast`, which uses the text itself as fuel and so never computes a length. -/
+
+def trailingBsL : List Char → Char → List Char → Option (List Char)
+  | [], _, _ => none
+  | _ :: fl, last, cs =>
+    let cs? : Option (List Char) :=
+      if last == '\r' then (match cs with | '\n' :: r => some r | _ => none) else some cs
+    match cs? with
+    | none => none
+    | some [] => none
+    | some (b :: r) =>
+      if b == ' ' || b == '\t' || b == '\n' || b == '\r' then trailingBsL fl b r else some (b :: r)
+
+theorem trailingBsL_eq (fl : List Char) (last : Char) (cs : List Char) :
+    trailingBsL fl last cs = trailingBs fl.length last cs := by
+  induction fl generalizing last cs with
+  | nil => rfl
+  | cons x fl ih => simp only [trailingBsL, trailingBs, List.length_cons, ih]
+
+def cookedL (m : StrMode) : List Char → List Char → List Char → Option (List Char × List Char)
+  | [], _, _ => none
+  | _ :: _, [], _ => none
+  | _ :: fl, c :: r, acc =>
+    if c == '"' then some (acc.reverse, r)
+    else if c == '\r' then
+      (if r.head? = some '\n' then cookedL m fl (r.drop 1) ('\n' :: acc) else none)
+    else if c == '\\' then
+      match escapeWith (trailingBsL fl) m r with
+      | some (some ch, r') => cookedL m fl r' (ch :: acc)
+      | some (none, r') => cookedL m fl r' acc
+      | none => none
+    else if (m == .bytes && 128 ≤ c.toNat) || (m == .cstr && c == '\x00') then none
+    else cookedL m fl r (c :: acc)
+
+theorem cookedL_eq (m : StrMode) (fl r acc : List Char) :
+    cookedL m fl r acc = cooked m fl.length r acc := by
+  induction fl generalizing r acc with
+  | nil => cases r <;> rfl
+  | cons x fl ih =>
+    cases r with
+    | nil => rfl
+    | cons c r =>
+      have he : escapeWith (trailingBsL fl) m = escape m fl.length := by
+        unfold escape
+        congr 1
+        funext last cs
+        exact trailingBsL_eq fl last cs
+      simp only [cookedL, cooked, List.length_cons, ih, he]
+
+def cookedAllFast (m : StrMode) (r : List Char) : Option (List Char × List Char) :=
+  cookedL m ('"' :: r) r []
+
+@[csimp] theorem cookedAll_eq_fast : @cookedAll = @cookedAllFast := by
+  funext m r
+  simp only [cookedAll, cookedAllFast, cookedL_eq, List.length_cons]
 
 /-- the `#`s of a raw string: count and the text after the opening quote -/
 def rawDelim : Nat → List Char → Option (Nat × List Char)
@@ -414,10 +548,10 @@ def litPrefix : List Char → Option LitPrefix
 def lexPrefixed (p : LitPrefix) (cs : List Char) : Option (K × List Char) :=
   match p with
   | .rawStr => strTok (rawStr .str (cs.drop 1))
-  | .byteStr => litTok (cooked .bytes ((cs.drop 2).length + 1) (cs.drop 2) [])
+  | .byteStr => litTok (cookedAll .bytes (cs.drop 2))
   | .byteChar => (charLit true (cs.drop 2)).map fun r' => (.lit, r')
   | .rawByteStr => litTok (rawStr .bytes (cs.drop 2))
-  | .cStr => litTok (cooked .cstr ((cs.drop 2).length + 1) (cs.drop 2) [])
+  | .cStr => litTok (cookedAll .cstr (cs.drop 2))
   | .rawCStr => litTok (rawStr .cstr (cs.drop 2))
 
 /-- the text after a `'`: a character literal, or a lifetime (`'` must be followed by an
@@ -443,7 +577,7 @@ def lexLeaf (cs : List Char) : Option (K × List Char) :=
   match cs with
   | [] => none
   | c :: r =>
-    if c = '"' then strTok (cooked .str (r.length + 1) r [])
+    if c = '"' then strTok (cookedAll .str r)
     else if c = '\'' then lexQuote r
     else if c.isDigit then lexNumber cs
     else if isPunctCh c then
